@@ -141,7 +141,12 @@ func (p *Prog) checkLemmas(prop string, opts runOpts) []*OblResult {
 func (p *Prog) checkStructurals(prop string) []structResult {
 	var out []structResult
 	for _, st := range p.contracts.Structurals {
-		if !contains(st.Props, prop) {
+		if _, loaded := p.byPath[st.PkgPath]; st.Kind == "field-readonly" && !contains(st.Props, prop) && !loaded {
+			continue
+		}
+		if !contains(st.Props, prop) && st.Kind != "field-readonly" {
+			// field-readonly is also an assumption of the encoder (calls do not havoc the field), so it is
+			// checked in every run that loads the package, whatever the property
 			continue
 		}
 		name := "structural:" + st.Name
@@ -283,6 +288,8 @@ func (p *Prog) structural(st Structural) (bool, string) {
 			return false, fmt.Sprintf("%s is written outside init by: %s", st.Args[0], strings.Join(bad, ", "))
 		}
 		return true, ""
+	case "field-readonly":
+		return p.fieldReadonly(st)
 	case "noflow":
 		return p.noflow(st)
 	case "defers":
@@ -478,6 +485,147 @@ func (p *Prog) noflow(st Structural) (bool, string) {
 	if len(hits) > 0 {
 		sort.Strings(hits)
 		return false, strings.Join(hits, "\n")
+	}
+	return true, ""
+}
+
+// readonlyFieldKey identifies a struct field declared read-only after construction.
+func readonlyFieldKey(t types.Type, field string) string {
+	if pt, ok := t.(*types.Pointer); ok {
+		t = pt.Elem()
+	}
+	return types.TypeString(t, nil) + "." + field
+}
+
+// readonlyFields collects the fields named by field-readonly structurals of the loaded contract files.
+func (p *Prog) readonlyFields() map[string]bool {
+	if p.roFields != nil {
+		return p.roFields
+	}
+	p.roFields = map[string]bool{}
+	for _, st := range p.contracts.Structurals {
+		if st.Kind != "field-readonly" || len(st.Args) < 1 {
+			continue
+		}
+		k := strings.LastIndex(st.Args[0], ".")
+		if k < 0 {
+			continue
+		}
+		if _, loaded := p.byPath[st.PkgPath]; !loaded {
+			continue // the obligation is not checked in this run, so the assumption is not used either
+		}
+		o, _ := p.lookupNamed(st.PkgPath, st.Args[0][:k])
+		tn, ok := o.(*types.TypeName)
+		if !ok {
+			continue
+		}
+		p.roFields[readonlyFieldKey(tn.Type(), st.Args[0][k+1:])] = true
+	}
+	return p.roFields
+}
+
+func (p *Prog) isReadonlyField(t types.Type, i int) bool {
+	st, ok := t.Underlying().(*types.Struct)
+	if !ok || i >= st.NumFields() {
+		return false
+	}
+	return p.readonlyFields()[readonlyFieldKey(t, st.Field(i).Name())]
+}
+
+// fieldReadonly: "field-readonly T.f [allow F ...]": in every loaded function other than the allowed constructors
+// the field is only loaded: no store through its address, its address does not escape, and no whole-struct store to
+// a *T overwrites it. The encoder relies on it: calls do not havoc T.f.
+func (p *Prog) fieldReadonly(st Structural) (bool, string) {
+	if len(st.Args) < 1 {
+		return false, "field-readonly needs T.f"
+	}
+	k := strings.LastIndex(st.Args[0], ".")
+	if k < 0 {
+		return false, "field-readonly needs T.f"
+	}
+	o, _ := p.lookupNamed(st.PkgPath, st.Args[0][:k])
+	tn, ok := o.(*types.TypeName)
+	if !ok {
+		return false, "type " + st.Args[0][:k] + " not found"
+	}
+	stt, ok := tn.Type().Underlying().(*types.Struct)
+	if !ok {
+		return false, st.Args[0][:k] + " is not a struct"
+	}
+	idx := -1
+	for i := 0; i < stt.NumFields(); i++ {
+		if stt.Field(i).Name() == st.Args[0][k+1:] {
+			idx = i
+		}
+	}
+	if idx < 0 {
+		return false, "no field " + st.Args[0][k+1:]
+	}
+	if stt.Field(idx).Exported() {
+		return false, "field-readonly is only supported for unexported fields (other packages could write an exported one)"
+	}
+	allowed := map[string]bool{}
+	for i := 1; i < len(st.Args); i++ {
+		if st.Args[i] != "allow" {
+			allowed[st.Args[i]] = true
+		}
+	}
+	isAllowed := func(fn *ssa.Function) bool {
+		for a := range allowed {
+			if matchPattern(a, fn.String()) || fn.Name() == a {
+				return true
+			}
+		}
+		return false
+	}
+	var bad []string
+	seen := 0
+	for _, fn := range p.funcs {
+		if fn.Blocks == nil || fn.Pkg == nil || fn.Pkg.Pkg.Path() != tn.Pkg().Path() {
+			continue
+		}
+		for _, b := range fn.Blocks {
+			for _, in := range b.Instrs {
+				switch x := in.(type) {
+				case *ssa.FieldAddr:
+					pt, ok := x.X.Type().Underlying().(*types.Pointer)
+					if !ok || !types.Identical(pt.Elem(), tn.Type()) || x.Field != idx {
+						continue
+					}
+					seen++
+					if x.Referrers() == nil {
+						continue
+					}
+					for _, r := range *x.Referrers() {
+						switch rr := r.(type) {
+						case *ssa.UnOp, *ssa.DebugRef:
+						case *ssa.Store:
+							if rr.Addr == ssa.Value(x) && !isAllowed(fn) {
+								bad = append(bad, fn.String()+" stores to the field")
+							} else if rr.Val == ssa.Value(x) {
+								bad = append(bad, fn.String()+" lets the field's address escape")
+							}
+						default:
+							bad = append(bad, fmt.Sprintf("%s uses the field's address in %T", fn.String(), r))
+						}
+					}
+				case *ssa.Store:
+					// whole-struct assignment *p = v
+					if pt, ok := x.Addr.Type().Underlying().(*types.Pointer); ok && types.Identical(pt.Elem(), tn.Type()) && !isAllowed(fn) {
+						if _, isAlloc := x.Addr.(*ssa.Alloc); !isAlloc {
+							bad = append(bad, fn.String()+" overwrites a whole "+tn.Name())
+						}
+					}
+				}
+			}
+		}
+	}
+	if seen == 0 {
+		return false, "the field is never referenced in the loaded code (stale structural obligation)"
+	}
+	if len(bad) > 0 {
+		sort.Strings(bad)
+		return false, strings.Join(bad, "; ")
 	}
 	return true, ""
 }
